@@ -44,7 +44,7 @@ Notation poll := (poll stop_at).
 Notation enable_pv_scoring := (enable_pv_scoring mv_eqb null_mv).
 
 Definition M : nat := MAXPLY.
-Lemma M_val : M = 64%nat. Proof. reflexivity. Qed.
+Lemma M_pos : (1 <= M)%nat. Proof. apply Nat.leb_le. vm_compute. reflexivity. Qed.
 Definition f (p : nat) : nat := M - p.
 Definition F (p : nat) : nat := 2 * (M - p) * (M - p).
 
@@ -327,7 +327,7 @@ Proof.
   set (e0 := emit e _).
   assert (N0 : ns e0 = (ns e + (if stopping e then 1 else 0))%nat) by (subst e0; rewrite ns_emit; cbn [isN]; destruct (stopping e); reflexivity).
   assert (P0 : ply e0 = p) by reflexivity. assert (S0 : stopping e0 = stopping e) by reflexivity.
-  assert (F1 : (1 <= f p)%nat) by (unfold f; rewrite M_val in *; lia).
+  assert (F1 : (1 <= f p)%nat) by (unfold f; pose proof M_pos; lia).
   (* a node that returns at once *)
   assert (QUICK : forall e', same3 e0 e' -> forall s, okn e (Val s e')).
   { intros e' (J1 & J2 & J3) s. cbn [okn]. fold p. split; [congruence|]. split.
